@@ -405,6 +405,12 @@ impl<Aux> Vm<'_, Aux> {
                 depth: verif_depth,
                 stack_h: self.runtime_data.value_stack.len() as u32,
                 call_h: self.runtime_data.call_stack.len() as u32,
+                frame_off: self
+                    .runtime_data
+                    .call_stack
+                    .last()
+                    .map(|f| f.stack_offset)
+                    .unwrap_or(0),
             });
             *instr_ptr += 1;
             debug!("Executing: {instr:?} instr_ptr: {instr_ptr}");
